@@ -413,6 +413,63 @@ fn hunt_point() -> i32 {
     println!("NONE {}", n); 0
 }
 
+
+// ---------- C15: from_fen (BOUNDED native stand-in; the function is outside both verifiers) ----------
+fn check_fen_text(text: &str, expect: Option<&Pos>) -> Option<String> {
+    let t = text.to_string();
+    let r = std::panic::catch_unwind(move || BoardState::from_fen(&t).map_err(|e| e.to_string()));
+    match r {
+        Err(_) => Some("from_fen panicked".into()),
+        Ok(Err(e)) => expect.map(|_| format!("well-formed FEN of a legal position rejected: {}", e)),
+        Ok(Ok(b)) => {
+            if let Some(p) = expect {
+                let h = ZobristHasher::create_zobrist_hasher();
+                if let Some(d) = board_matches(&b, p) { return Some(format!("loaded position differs from the FEN: {}", d)); }
+                if b.zobrist_key != scratch_key(&b, &h) { return Some("key of the loaded position is not its from-scratch key".into()); }
+            }
+            None
+        }
+    }
+}
+fn hunt_fen(seed: u64, budget: f64, stats: bool) -> i32 {
+    std::panic::set_hook(Box::new(|_| {}));
+    let mut src = Source { rng: Rng(seed.wrapping_mul(0x9E3779B97F4A7C15) | 1), idx: 0, walk: None };
+    let mut rng = Rng(seed.wrapping_mul(77) | 1);
+    let t0 = Instant::now(); let mut n = 0u64; let mut nw = 0u64;
+    let counters = ["0 1", "3 17", "99 120", "0 255", "0 256", "12 300", "150 1000", "0 65535"];
+    while t0.elapsed() < Duration::from_secs_f64(budget) || n < (CURATED.len() * counters.len()) as u64 {
+        let p = src.next();
+        if !p.is_legal_position() { continue; }
+        let base = p.fen();
+        let stem = base.rsplitn(3, ' ').nth(2).unwrap().to_string();
+        // faithful: every counter pair, same position
+        let c = if (n as usize) < CURATED.len() * counters.len() { counters[(n as usize) % counters.len()] } else { counters[rng.below(counters.len())] };
+        let text = format!("{} {}", stem, c);
+        n += 1; nw += 1;
+        if let Some(d) = check_fen_text(&text, Some(&p)) {
+            println!("CASE {{\"kind\":\"fen\",\"text\":\"{}\",\"wellformed\":true,\"observed\":\"{}\",\"input_id\":\"counters={}\"}}", jesc(&text), jesc(&d), c);
+            return 1;
+        }
+        // total: mutate the text (byte substitution / deletion / insertion / truncation); only ASCII so it stays valid UTF-8,
+        // plus a few multi-byte characters
+        let mut bytes: Vec<char> = text.chars().collect();
+        for _ in 0..1 + rng.below(3) {
+            if bytes.is_empty() { break; }
+            let i = rng.below(bytes.len());
+            let pool = ['/', ' ', '-', '9', '0', '8', 'k', 'K', 'x', 'w', 'b', 'e', '3', '6', 'a', 'h', 'i', 'é', '→', '\n', '\r'];
+            match rng.below(4) { 0 => { bytes[i] = pool[rng.below(pool.len())]; } 1 => { bytes.remove(i); } 2 => { bytes.insert(i, pool[rng.below(pool.len())]); } _ => { bytes.truncate(i); } }
+        }
+        let m: String = bytes.into_iter().collect();
+        n += 1;
+        if let Some(d) = check_fen_text(&m, None) {
+            println!("CASE {{\"kind\":\"fen\",\"text\":\"{}\",\"wellformed\":false,\"observed\":\"{}\",\"input_id\":\"{}\"}}", jesc(&m), jesc(&d), jesc(&m));
+            return 1;
+        }
+    }
+    if stats { println!("STATS inputs={} wellformed={}", n, nw); }
+    println!("NONE {}", n); 0
+}
+
 fn get_str<'a>(json: &'a str, key: &str) -> Option<String> {
     let pat = format!("\"{}\":\"", key);
     let i = json.find(&pat)? + pat.len();
@@ -433,7 +490,7 @@ fn main() {
             match prop {
                 "C10" => { let mut rc = 0; for c in 0..=6u8 { if let Some(d) = check_draw(c) { println!("CASE {{\"kind\":\"draw\",\"count\":\"{}\",\"observed\":\"{}\",\"input_id\":\"count={}\"}}", c, jesc(&d), c); rc = 1; break; } } if rc == 0 { println!("NONE 7"); } rc }
                 "C09" => hunt_slice(seed, budget),
-                "C15" => hunt_point(),
+                "C15" => { let r = hunt_point(); if r != 0 { r } else { hunt_fen(seed, budget, a[1] == "cross") } }
                 _ => hunt_positions(prop, focus, seed, budget, a[1] == "cross"),
             }
         }
@@ -445,6 +502,10 @@ fn main() {
                 "draw" => check_draw(get_str(js, "count").unwrap().parse().unwrap()),
                 "go" => { let g = |k: &str| get_str(js, k).unwrap().parse::<i128>().unwrap(); let m = get_str(js, "movestogo").unwrap(); let mtg = if m == "None" { None } else { m.trim_start_matches("Some(").trim_end_matches(')').parse().ok() };
                     check_slice(&GameTime { wtime: g("wtime"), btime: g("btime"), winc: g("winc"), binc: g("binc"), movestogo: mtg }, js.contains("\"white\":true")) }
+                "fen" => { std::panic::set_hook(Box::new(|_| {})); let text = get_str(js, "text").unwrap(); let wf = js.contains("\"wellformed\":true");
+                    let stem: Vec<&str> = text.split(' ').collect();
+                    let p = if wf { Pos::from_fen(&text) } else { None };
+                    check_fen_text(&text, p.as_ref()) }
                 "point" => { std::panic::set_hook(Box::new(|_| {})); let i = js.find("\"bytes\":[").unwrap() + 9; let j = js[i..].find(']').unwrap() + i; let bytes: Vec<u8> = js[i..j].split(',').filter_map(|x| x.trim().parse().ok()).collect(); check_point_text(&bytes) }
                 _ => None,
             };
